@@ -70,6 +70,11 @@ def gen_keys(rng, uni, dims, k0, with_lists):
                 out.append(dict(form="bare", item=its[0]))
             elif its:
                 out.append(dict(form="tuple", items=its))
+                # the items of one dimension need not stand next to each other in a tuple
+                multi = [s[1] for _, l, s in entries if s[0] == "list" and len(s[1]) >= 2]
+                if multi and len(its) > len(multi[0]):
+                    rest = [i for i in its if i not in multi[0]]
+                    out.append(dict(form="tuple", items=[multi[0][0]] + rest + list(multi[0][1:])))
     return out
 
 
@@ -141,7 +146,16 @@ def generate(tier, rng):
                     cases.append(dict(stream="subset-orders", uni=u2, arr=arr, steps=[dict(op="get", key=key)]))
                 else:
                     keyl = dict(form="dict", entries=[["L", "a", ["list", list(sub)]]]) if kk % 4 == 0 else key
-                    cases.append(dict(stream="subset-orders", uni=u2, arr=arr, steps=[dict(op="set", key=keyl, rhs=dict(kind="num", c=77)), dict(op="get", key=dict(form="ellipsis"))]))
+                    rhs = dict(kind="num", c=77)
+                    if kk % 4 == 2:
+                        # a source over the subset: every entry must land under its own label, whatever the order of the subset
+                        rd = [SUBLETTER["a"] if l == "a" else l for l in dims]
+                        rhs = dict(kind="arr", arr=dict(dims=rd, values=[1000 + 7 * j for j in range(nelem(u2, rd))]))
+                    cases.append(dict(stream="subset-orders", uni=u2, arr=arr, steps=[dict(op="set", key=keyl, rhs=rhs), dict(op="get", key=dict(form="ellipsis"))]))
+        # lists naming an item twice: the number fills the named items and nothing else
+        for rep in (["a0", "a0", "a2"], ["a1", "a3", "a3"], ["a0", "a2", "a2"], ["a4", "a2", "a2", "a3"]):
+            keyl = dict(form="dict", entries=[["L", "a", ["list", rep]]])
+            cases.append(dict(stream="subset-orders", uni=u5, arr=arr, steps=[dict(op="set", key=keyl, rhs=dict(kind="num", c=55)), dict(op="get", key=dict(form="ellipsis"))]))
     # ambiguous items: two dimensions sharing an item
     amb = mk_universe((2, 2), "ab")
     amb["b"]["items"] = ["a0", "b1"]
